@@ -80,10 +80,11 @@ def bindErrName : BindErr → String
   | .multipleValues => "multiple_values"
   | .unexpectedKeyword => "unexpected_keyword"
   | .missingRequired => "missing_required"
+  | .posOnlyAsKeyword => "posonly_as_keyword"
 
 /-- The spec's outcome with the fine error kind (validated against CPython's messages). -/
-def specToJ (t : Tbl) (s : Sig) (c : Call) : J :=
-  match pyBind s c with
+def specToJ (t : Tbl) (npo : Nat) (s : Sig) (c : Call) : J :=
+  match pyBindPO npo s c with
   | .ok a => .obj [("ok", asgToJ t a)]
   | .error e => .obj [("err", .str "TypeError"), ("kind", .str (bindErrName e))]
 
@@ -102,13 +103,14 @@ def handle (j : J) : J :=
   match (j.get? "sig").bind (sigOfJ t), (j.get? "c1").bind (callOfJ t) with
   | some s, some c1 =>
     if !s.wf then bad "sig not well-formed" else
+    let npo := (((j.get? "sig").bind (·.getNat? "posonly")).getD 0)
     match j.getStr? "kind" with
     | some "cls" =>
       .obj [("direct", outcomeToJ t (classInit s c1.call)),
             ("sym_init_args", match objectInit s c1.call with
                | .ok o => reportedToJ t (reportArgs o.sig o.fields o.va)
                | .error _ => .null),
-            ("py_c1", specToJ t s c1.call)]
+            ("py_c1", specToJ t npo s c1.call)]
     | some "functor" =>
       match (j.get? "c2").bind (callOfJ t) with
       | none => bad "c2"
@@ -117,12 +119,12 @@ def handle (j : J) : J :=
         let ign := c2.ignore.getD (c1.ignore.getD false)
         let ovr := c2.override.getD (c1.override.getD false)
         let common : List (String × J) :=
-          [("py_c1", specToJ t s c1.call), ("py_c2", specToJ t s c2.call),
-           ("effective", match effective s c1.call c2.call ign with
+          [("py_c1", specToJ t npo s c1.call), ("py_c2", specToJ t npo s c2.call),
+           ("effective", match effectivePO npo s c1.call c2.call ign with
               | .ok c => callToJ t c
               | .error _ => .null),
-           ("py_eff", match effective s c1.call c2.call ign with
-              | .ok c => specToJ t s c
+           ("py_eff", match effectivePO npo s c1.call c2.call ign with
+              | .ok c => specToJ t npo s c
               | .error _ => .null),
            ("conflict", match nameArgs s c1.call, nameArgs s (if ign then dropExtras s c2.call else c2.call) with
               | .ok n1, .ok n2 => .bool (conflicts n1 n2)
@@ -140,7 +142,13 @@ def handle (j : J) : J :=
                  ("default", J.ofStrs (F.defaultArgs.map t.name)),
                  ("nondefault", J.ofStrs (F.nonDefaultArgs.map t.name)),
                  ("call", outcomeToJ t (functorCall fix29 F c2.call c2.override c2.ignore)),
-                 ("call0", outcomeToJ t (functorCall fix29 F Call.empty none none))] ++ common)
+                 ("call0", outcomeToJ t (functorCall fix29 F Call.empty none none)),
+                 ("json_init_args", reportedToJ t (symInitArgs F.jsonRoundTrip)),
+                 ("json_call0", outcomeToJ t (functorCall fix29 F.jsonRoundTrip Call.empty none none)),
+                 ("json_specified", J.ofStrs (F.jsonRoundTrip.specified.map t.name)),
+                 ("json_default", J.ofStrs (F.jsonRoundTrip.defaultArgs.map t.name)),
+                 ("json_nondefault", J.ofStrs (F.jsonRoundTrip.nonDefaultArgs.map t.name)),
+                 ("clone_call", outcomeToJ t (functorCall fix29 F.clone c2.call c2.override c2.ignore))] ++ common)
     | _ => bad "kind"
   | _, _ => bad "sig/c1"
 
